@@ -193,6 +193,8 @@ fn static_assertions() {
 
 struct Ctx<'a> {
     mapping: &'a [u8],
+    /// the mapper built through `From<(&str, bool)>` (valid UTF-8 mappings only): must answer as `mapper`
+    mapper_from: Option<ProguardMapper<'a>>,
     mapper: Option<ProguardMapper<'a>>,
     mapper0: Option<ProguardMapper<'a>>,
     cache_bytes: Option<&'a AlignedBuf>,
@@ -230,7 +232,11 @@ fn run_mapping_ops(mapping: &[u8], ops: &[&str], out: &mut Vec<String>) {
             Some(Ok(c)) => Some(c),
         },
     };
-    let ctx = Ctx { mapping, mapper, mapper0, cache_bytes: abuf.as_ref(), cache, cache_state };
+    let mapper_from = match std::str::from_utf8(mapping) {
+        Ok(text) if mapping.len() < (1 << 20) => guarded(|| ProguardMapper::from((text, true))),
+        _ => None,
+    };
+    let ctx = Ctx { mapping, mapper_from, mapper, mapper0, cache_bytes: abuf.as_ref(), cache, cache_state };
     let nthreads = THREADS.load(std::sync::atomic::Ordering::Relaxed);
     if nthreads <= 1 || ops.len() < 2 {
         for op in ops {
@@ -272,6 +278,14 @@ fn run_mapping_ops(mapping: &[u8], ops: &[&str], out: &mut Vec<String>) {
     }
     for a in answers {
         out.push(a.unwrap_or_else(|| "THREAD-DIED".to_string()));
+    }
+}
+
+/// `;f=<answer>` of the mapper built by the `From<(&str, bool)>` constructor, when there is one
+fn from_answer(ctx: &Ctx, f: &dyn Fn(&ProguardMapper) -> String) -> String {
+    match &ctx.mapper_from {
+        None => String::new(),
+        Some(m) => format!(";f={}", or_panic(guarded(|| f(m)))),
     }
 }
 
@@ -324,7 +338,7 @@ fn run_op(ctx: &Ctx, line: &str) -> String {
                 with_mapper(&|m| ohex(m.remap_class(t.s(0))), &ctx.mapper),
                 with_mapper(&|m| ohex(m.remap_class(t.s(0))), &ctx.mapper0),
                 with_cache("k", &toks[1..])
-            )
+            ) + &from_answer(ctx, &|m| ohex(m.remap_class(t.s(0))))
         }
         "T" => {
             let Some(t) = decode(&toks[1..]) else { return "BADUTF8".into() };
@@ -333,7 +347,7 @@ fn run_op(ctx: &Ctx, line: &str) -> String {
                 with_mapper(&|m| show_pair(m.remap_method(t.s(0), t.s(1))), &ctx.mapper),
                 with_mapper(&|m| show_pair(m.remap_method(t.s(0), t.s(1))), &ctx.mapper0),
                 with_cache("t", &toks[1..])
-            )
+            ) + &from_answer(ctx, &|m| show_pair(m.remap_method(t.s(0), t.s(1))))
         }
         "L" => {
             let Some(t) = decode(&toks[1..]) else { return "BADUTF8".into() };
@@ -344,7 +358,7 @@ fn run_op(ctx: &Ctx, line: &str) -> String {
                 with_mapper(&|m| show_frames(m.remap_frame(&mk_frame(t.s(0), t.s(1), line, file))), &ctx.mapper),
                 with_mapper(&|m| show_frames(m.remap_frame(&mk_frame(t.s(0), t.s(1), line, file))), &ctx.mapper0),
                 with_cache("l", &toks[1..])
-            )
+            ) + &from_answer(ctx, &|m| show_frames(m.remap_frame(&mk_frame(t.s(0), t.s(1), line, file))))
         }
         "P" => {
             let Some(t) = decode(&toks[1..]) else { return "BADUTF8".into() };
@@ -402,6 +416,7 @@ fn run_op(ctx: &Ctx, line: &str) -> String {
                 }
             }))
         }
+        "YA" => or_panic(guarded(|| run_typed_ast(ctx, &toks[1..]))),
         "G" => {
             let Some(t) = decode(&toks[1..]) else { return "BADUTF8".into() };
             format!(
@@ -468,10 +483,28 @@ fn run_op(ctx: &Ctx, line: &str) -> String {
 fn run_x_ops(buf: &[u8], ops: &[&str], out: &mut Vec<String>) {
     let a = AlignedBuf::new(buf);
     let parsed = guarded(|| ProguardCache::parse(a.bytes()));
+    // the same bytes at the seven other addresses modulo 8: rejected, or accepted and answering every
+    // query exactly as the aligned buffer does (never accepted where the aligned buffer is rejected)
+    let others: Vec<OffsetBuf> = (1..8).map(|k| OffsetBuf::new(buf, k)).collect();
+    let mut mis = Vec::new();
+    let mut others_parsed = Vec::new();
+    for (k, ob) in others.iter().enumerate() {
+        match guarded(|| ProguardCache::parse(ob.bytes())) {
+            None => mis.push(format!("{}P", k + 1)),
+            Some(Ok(c)) => {
+                if !matches!(&parsed, Some(Ok(_))) {
+                    mis.push(format!("{}A", k + 1));
+                }
+                others_parsed.push((k + 1, c));
+            }
+            Some(Err(_)) => {}
+        }
+    }
+    let misflag = if mis.is_empty() { String::new() } else { format!(";mis={}", mis.join(",")) };
     match &parsed {
-        None => out.push("r=PANIC".into()),
-        Some(Err(e)) => out.push(format!("r={}", show_cache_err(e))),
-        Some(Ok(_)) => out.push("r=ok".into()),
+        None => out.push(format!("r=PANIC{}", misflag)),
+        Some(Err(e)) => out.push(format!("r={}{}", show_cache_err(e), misflag)),
+        Some(Ok(_)) => out.push(format!("r=ok{}", misflag)),
     }
     for op in ops {
         let toks: Vec<&str> = op.split(' ').collect();
@@ -480,7 +513,16 @@ fn run_x_ops(buf: &[u8], ops: &[&str], out: &mut Vec<String>) {
             Some(Err(_)) => "noparse".into(),
             None => "PANIC".into(),
         };
-        out.push(format!("c={}", ans));
+        let mut diff = Vec::new();
+        if matches!(&parsed, Some(Ok(_))) {
+            for (k, c) in &others_parsed {
+                if cache_query(c, toks[0], &toks[1..]) != ans {
+                    diff.push(k.to_string());
+                }
+            }
+        }
+        let d = if diff.is_empty() { String::new() } else { format!(";misdiff={}", diff.join(",")) };
+        out.push(format!("c={}{}", ans, d));
     }
 }
 
@@ -628,7 +670,7 @@ fn fnv(h: &mut u64, bytes: &[u8]) {
         *h = h.wrapping_mul(0x100000001b3);
     }
 }
-/// E1: every mapping of at most 5 lines over a 12-line alphabet (classes with a repeated obfuscated name,
+/// E1: every mapping of at most 5 lines over a 13-line alphabet (classes with a repeated obfuscated name,
 /// an inline pair, overlapping / range-less / inverted / foreign-class entries, a field, a sourceFile
 /// header, a noise line), each with a fixed query universe, through mapper (with and without
 /// parameter index) and cache.  One digest per block of 512 mappings.
@@ -647,6 +689,7 @@ pub const ALPHA1: &[&[u8]] = &[
     b"# {\"id\":\"sourceFile\",\"fileName\":\"S.kt\"}\n",
     b"garbage\n",
     b"    5:4:void inv() -> g\n",
+    b"    # {\"id\":\"x\"}\n",
 ];
 pub fn e1_queries() -> Vec<String> {
     let h = |s: &str| hex(s.as_bytes());
@@ -789,6 +832,116 @@ fn run_trace_ast(toks: &[&str]) -> String {
     format!("p={};rt={};rp={}", hex(text.as_bytes()), rt as u8, rp as u8)
 }
 
+/// YA: a typed trace built through the public constructors — frames by line (`f:class:method:file|~:line`)
+/// and by parameters (`p:class:method:params`), throwables (`e:class:msg|~`), `c` starts a cause — remapped
+/// by mapper (both index modes) and cache.  The property's own node-wise clause is evaluated on the
+/// implementation: every level keeps its position, its throwable is remap_throwable's answer or itself, its
+/// frames are the concatenation of remap_frame's answers (or the frame itself when there is none).
+fn run_typed_ast(ctx: &Ctx, toks: &[&str]) -> String {
+    #[derive(Default)]
+    struct Node {
+        exc: Option<(String, Option<String>)>,
+        frames: Vec<(String, String, Option<String>, usize, Option<String>)>,
+    }
+    let s = |x: &str| String::from_utf8(unhex(x)).expect("utf8");
+    let mut nodes = vec![Node::default()];
+    for t in toks {
+        if *t == "c" {
+            nodes.push(Node::default());
+            continue;
+        }
+        let f: Vec<&str> = t.split(':').collect();
+        let cur = nodes.last_mut().unwrap();
+        match f[0] {
+            "e" => cur.exc = Some((s(f[1]), if f[2] == "~" { None } else { Some(s(f[2])) })),
+            "f" => cur.frames.push((s(f[1]), s(f[2]), if f[3] == "~" { None } else { Some(s(f[3])) }, f[4].parse().expect("line"), None)),
+            "p" => cur.frames.push((s(f[1]), s(f[2]), None, 0, Some(s(f[3])))),
+            _ => return format!("BAD-TOKEN {}", t),
+        }
+    }
+    fn frame_of<'a>(f: &'a (String, String, Option<String>, usize, Option<String>)) -> StackFrame<'a> {
+        match (&f.4, &f.2) {
+            (Some(p), _) => StackFrame::with_parameters(&f.0, &f.1, p),
+            (None, Some(file)) => StackFrame::with_file(&f.0, &f.1, f.3, file),
+            (None, None) => StackFrame::new(&f.0, &f.1, f.3),
+        }
+    }
+    fn build<'a>(nodes: &'a [Node]) -> StackTrace<'a> {
+        let n = &nodes[0];
+        let exc = n.exc.as_ref().map(|(c, m)| match m {
+            Some(m) => Throwable::with_message(c, m),
+            None => Throwable::new(c),
+        });
+        let frames: Vec<StackFrame> = n.frames.iter().map(frame_of).collect();
+        if nodes.len() > 1 {
+            StackTrace::with_cause(exc, frames, build(&nodes[1..]))
+        } else {
+            StackTrace::new(exc, frames)
+        }
+    }
+    let tr = build(&nodes);
+    fn show_level(e: Option<&Throwable>, fs: &[StackFrame]) -> String {
+        format!(
+            "{}|{}",
+            e.map_or("~".to_string(), |t| hex(t.to_string().as_bytes())),
+            fs.iter()
+                .map(|f| format!("{}:{}:{}:{}:{}", hex(f.class().as_bytes()), hex(f.method().as_bytes()), ohex(f.file()), f.line(), ohex(f.parameters())))
+                .collect::<Vec<_>>()
+                .join(",")
+        )
+    }
+    fn levels(t: &StackTrace) -> Vec<String> {
+        let mut v = Vec::new();
+        let mut cur = Some(t);
+        while let Some(x) = cur {
+            v.push(show_level(x.exception(), x.frames()));
+            cur = x.cause();
+        }
+        v
+    }
+    // expected, node by node, from the single-element API of the same object
+    let expect = |rt: &dyn Fn(&Throwable) -> Option<String>, rf: &dyn Fn(&StackFrame) -> Vec<String>| -> Vec<String> {
+        let mut v = Vec::new();
+        let mut cur = Some(&tr);
+        while let Some(x) = cur {
+            let e = x.exception().map_or("~".to_string(), |t| rt(t).unwrap_or_else(|| hex(t.to_string().as_bytes())));
+            let mut fs = Vec::new();
+            for f in x.frames() {
+                let r = rf(f);
+                if r.is_empty() {
+                    fs.push(format!("{}:{}:{}:{}:{}", hex(f.class().as_bytes()), hex(f.method().as_bytes()), ohex(f.file()), f.line(), ohex(f.parameters())));
+                } else {
+                    fs.extend(r);
+                }
+            }
+            v.push(format!("{}|{}", e, fs.join(",")));
+            cur = x.cause();
+        }
+        v
+    };
+    let fshow = |f: StackFrame| format!("{}:{}:{}:{}:{}", hex(f.class().as_bytes()), hex(f.method().as_bytes()), ohex(f.file()), f.line(), ohex(f.parameters()));
+    let mut verdicts = Vec::new();
+    let mut results = Vec::new();
+    for (name, m) in [("m", &ctx.mapper), ("n", &ctx.mapper0)] {
+        if let Some(m) = m {
+            let got = levels(&m.remap_stacktrace_typed(&tr));
+            let want = expect(&|t| m.remap_throwable(t).map(|x| hex(x.to_string().as_bytes())), &|f| m.remap_frame(f).map(fshow).collect());
+            verdicts.push(format!("{}={}", name, (got == want) as u8));
+            if name == "m" {
+                results.push(got);
+            }
+        }
+    }
+    if let Some(c) = &ctx.cache {
+        let got = levels(&c.remap_stacktrace_typed(&tr));
+        let want = expect(&|t| c.remap_throwable(t).map(|x| hex(x.to_string().as_bytes())), &|f| c.remap_frame(f).map(fshow).collect());
+        verdicts.push(format!("c={}", (got == want) as u8));
+        results.push(got);
+    }
+    let same = results.windows(2).all(|w| w[0] == w[1]);
+    format!("{};mc={};d={}", verdicts.join(";"), same as u8, depth(&tr))
+}
+
 #[derive(Clone, Copy)]
 enum Resp {
     Short(usize),
@@ -801,6 +954,21 @@ struct ScriptSink {
     script: Vec<(usize, Resp)>,
     calls: usize,
     accepted: Vec<u8>,
+}
+/// the same sink, additionally offering a gathering `write_vectored` (like files and sockets do): one call,
+/// one scripted response, bytes taken across the buffers in order
+struct GatherSink(ScriptSink);
+impl std::io::Write for GatherSink {
+    fn write(&mut self, buf: &[u8]) -> std::io::Result<usize> {
+        self.0.write(buf)
+    }
+    fn write_vectored(&mut self, bufs: &[std::io::IoSlice<'_>]) -> std::io::Result<usize> {
+        let all: Vec<u8> = bufs.iter().flat_map(|b| b.iter().copied()).collect();
+        self.0.write(&all)
+    }
+    fn flush(&mut self) -> std::io::Result<()> {
+        Ok(())
+    }
 }
 impl std::io::Write for ScriptSink {
     fn write(&mut self, buf: &[u8]) -> std::io::Result<usize> {
@@ -829,8 +997,9 @@ impl std::io::Write for ScriptSink {
 
 fn run_sink_op(mapping: &[u8], toks: &[&str]) -> String {
     let max: usize = toks[0].strip_prefix("max=").expect("max=").parse().expect("max");
+    let gather = toks[1..].contains(&"vec");
     let mut script = Vec::new();
-    for t in &toks[1..] {
+    for t in toks[1..].iter().filter(|t| **t != "vec") {
         let (i, r) = t.split_once(':').expect("idx:resp");
         let i: usize = i.parse().expect("idx");
         let r = match r {
@@ -844,7 +1013,14 @@ fn run_sink_op(mapping: &[u8], toks: &[&str]) -> String {
     let mut canon = Vec::new();
     ProguardCache::write(&pm, &mut canon).expect("vec write");
     let mut sink = ScriptSink { max, script, calls: 0, accepted: Vec::new() };
-    let res = ProguardCache::write(&pm, &mut sink);
+    let res = if gather {
+        let mut g = GatherSink(sink);
+        let r = ProguardCache::write(&pm, &mut g);
+        sink = g.0;
+        r
+    } else {
+        ProguardCache::write(&pm, &mut sink)
+    };
     let r = match &res {
         Ok(()) => "ok",
         Err(e) if e.kind() == std::io::ErrorKind::WriteZero => "zero",
@@ -862,7 +1038,7 @@ fn run_sink_op(mapping: &[u8], toks: &[&str]) -> String {
 }
 
 fn is_group_op(l: &str) -> bool {
-    matches!(l.split(' ').next().unwrap_or(""), "I" | "D" | "K" | "T" | "L" | "P" | "KI" | "TI" | "LI" | "PI" | "S" | "Y" | "G" | "W" | "U" | "Z" | "ZI" | "DOM" | "US")
+    matches!(l.split(' ').next().unwrap_or(""), "I" | "D" | "K" | "T" | "L" | "P" | "KI" | "TI" | "LI" | "PI" | "S" | "Y" | "YA" | "G" | "W" | "U" | "Z" | "ZI" | "DOM" | "US")
 }
 fn is_x_op(l: &str) -> bool {
     matches!(l.split(' ').next().unwrap_or(""), "k" | "t" | "l" | "p" | "s" | "g")
